@@ -26,6 +26,8 @@ SPEC = {
     'exhaustive': True,
 }
 
+SPEC['explanation'] += ' T2.empty: a ManyToMany entry created on demand is filled on the spot (no empty set left behind).'
+SPEC['decided'] += ['no empty entries through setdefault']
 MANIFEST = {
     'technique': 'paired-write analysis over all CFG paths; freshness (no foreign alias) and guarded-store checks; MRO closure of raising mutators; order-insensitive-aggregate check on the hash',
     'text': ('Decides necessary structural conditions of C17 on all paths: both directions of OneToOne/ManyToMany are '
@@ -46,6 +48,7 @@ def run(ctx):
     onepass.check(ctx, ctx.program.func('dictutils.OneToOne.update'), 'dict_or_iterable',
                   recv=ctx.program.cls('dictutils.OneToOne'))
     bimap.check_manytomany(ctx, 'dictutils.ManyToMany')
+    bimap.check_no_empty_entry(ctx, 'dictutils.ManyToMany')
     bimap.check_frozendict(ctx, 'dictutils.FrozenDict')
     for r, n in (('T1', 7), ('T2', 8), ('T3', 1), ('T2m', 8), ('T1f', 7), ('T22', 1), ('T8f', 4)):
         ctx.need(r, n)
